@@ -21,7 +21,7 @@ RULE = (
     "8..64, rank 1-4, tile depth 1-3, optionally a dynamic outermost bound resolved at run time) is lowered by memref-to-snax; the emitted size "
     "arithmetic is executed and the snax.alloc size operand must be >= highest byte address the layout can touch + 1 (independent layout "
     "oracle). place: functions with 1-12 L1 allocs (different sizes, element types, alignments) at top level, subviews, casts and tagged uses "
-    "in straight-line code and nested in scf.for (0-2 trips) / scf.if, lowered by memref-to-snax,canonicalize,snax-allocate{mode=static|"
+    "in straight-line code and nested in scf.for (0-2 trips) / scf.if, joins of two buffers through arith.select / scf.if results / loop-carried values, in 15% of the cases a second function with its own buffers called from the first, lowered by memref-to-snax,canonicalize,snax-allocate{mode=static|"
     "minimalloc|auto|dynamic} for a seeded L1 window (start, capacity) and a seeded packing order of the stub solver; the result is executed "
     "on a memory with ownership shadow: every use (first and last byte of its view) must stay inside its buffer's allocation, inside the "
     "window and aligned as requested, and two buffers whose use intervals overlap in time must not overlap in address. Degenerate use of the "
@@ -45,7 +45,7 @@ def gen_case(rng, tier):
                 case["dynstep"] = True
         return case
     mode = rng.choice(["static", "minimalloc", "minimalloc", "auto", "dynamic"])
-    ast = AG.AllocGen(rng, views=rng.random() < 0.7).program()
+    ast = AG.AllocGen(rng, views=rng.random() < 0.7).program(callee=rng.random() < 0.15)
     return {
         "fam": "place",
         "ast": ast,
@@ -163,6 +163,8 @@ def run_place(case, out):
         return out
     out["runs"] = out["zero_fault_runs"] = 1
     info = {s["site"]: s for s in _walk(case["ast"]["body"]) if s["k"] == "alloc"}
+    if case["ast"].get("callee"):
+        info.update({s["site"]: s for s in _walk(case["ast"]["callee"]["body"]) if s["k"] == "alloc"})
     start, cap = case["window"]
     uses: dict = {}
     for ev in m.events:
@@ -194,6 +196,7 @@ def run_place(case, out):
             out.update(
                 status="violation",
                 oracle="live-overlap",
+                sites=[sa, sb],
                 message=f"buffers of sites {sa} [{ua[2]:#x}, {ua[2] + ua[3]:#x}) used during steps [{ua[0]}, {ua[1]}] and {sb} [{ub[2]:#x}, {ub[2] + ub[3]:#x}) used during [{ub[0]}, {ub[1]}] overlap in address and in time",
             )
             return out
@@ -219,6 +222,18 @@ def execute(case):
     return run_size(case, out) if case["fam"] == "size" else run_place(case, out)
 
 
+def _kf_c11_1(case, outcome):
+    import re
+
+    if case.get("fam") != "place" or case.get("mode") not in ("minimalloc", "auto") or outcome.get("oracle") != "live-overlap" or not case["ast"].get("callee"):
+        return False
+    sites = outcome.get("sites") or [int(x) for x in re.findall(r"sites (\d+) .* and (\d+) \[", outcome.get("message") or "")[0]]
+    return (sites[0] >= 1000) != (sites[1] >= 1000)
+
+
+TRIGGERS = {"minimalloc_restarts_at_zero_in_every_function": _kf_c11_1}
+
+
 def shrink(case):
     if case["fam"] == "size":
         if case["el"] != "i8":
@@ -228,6 +243,9 @@ def shrink(case):
         return
     for nb in AG.shrink_body(case["ast"]["body"]):
         yield dict(case, ast=dict(case["ast"], body=nb))
+    if case["ast"].get("callee"):
+        for nb in AG.shrink_body(case["ast"]["callee"]["body"]):
+            yield dict(case, ast=dict(case["ast"], callee=dict(case["ast"]["callee"], body=nb)))
     if case["solver"][0] != "size":
         yield dict(case, solver=["size", 0])
     if case["window"] != [0x10000000, 65536]:
